@@ -3,7 +3,7 @@
 seeded change from /tmp/wt/<PROP>-out into /verif/seeded/<PROP>-<n>/ with a meta.json."""
 import json,os,re,shutil,sys
 prop,n,det=sys.argv[1],sys.argv[2],sys.argv[3]; needs=' '.join(sys.argv[4:])
-round2 = prop.endswith('b') or prop.endswith('c')
+round2 = prop[-1] in 'bcdefgh'
 src=f'/tmp/wt/{prop}-out'; dst=f'/verif/seeded/{prop}-{n}'
 prop_id = prop[:-1] if round2 else prop
 os.makedirs(dst,exist_ok=True)
